@@ -420,6 +420,16 @@ impl Process {
         self.state_has_changed
     }
 
+    /// Returns false if the process has terminated and its final state has
+    /// been [taken](Self::take_state), that is, its parent has waited for it:
+    /// the lifetime of the process has ended and its process ID no longer
+    /// names a process (a terminated process that has not been waited for
+    /// still exists).
+    #[must_use]
+    pub fn exists(&self) -> bool {
+        self.state.is_alive() || self.state_has_changed
+    }
+
     /// Returns the process state and clears the
     /// [`state_has_changed`](Self::state_has_changed) flag.
     pub fn take_state(&mut self) -> ProcessState {
@@ -569,6 +579,12 @@ impl Process {
     /// process.
     #[must_use = "send SIGCHLD if process state has changed"]
     pub fn raise_signal(&mut self, signal: signal::Number) -> SignalResult {
+        // A terminated process (a zombie) takes no action on a signal: the
+        // status it terminated with is what its parent is told.
+        if !self.state.is_alive() {
+            return SignalResult::default();
+        }
+
         let process_state_changed =
             signal == signal::SIGCONT && self.set_state(ProcessState::Running);
 
